@@ -179,7 +179,9 @@ class Op(metaclass=OpMeta):
             try:
                 trace, _TRACE = _TRACE, None
                 result = fn(*args, **kwargs)
-                trace.setdefault(id(result), (result, self, raw_args))
+                # Record the op with the parameters of this call, applied to its operands.
+                op = cls(*args[cls.arity :], **kwargs)
+                trace.setdefault(id(result), (result, op, args[: cls.arity]))
             finally:
                 _TRACE = trace
 
